@@ -13,7 +13,12 @@ impl<'b> Response<'b> {
     pub fn parse(buf: &'b [u8]) -> Result<Response<'b>, HttpParsingError> {
         let start = buf.len();
         let (http_version, rest) = parse_version(buf)?;
-        let rest = rest.get(1..).ok_or(MalformedStatusLine)?; // skip single SP
+        // single SP between version and status code
+        let rest = match rest.first() {
+            Some(b' ') => &rest[1..],
+            Some(_) => return Err(MalformedStatusLine),
+            None => return Err(UnexpectedEof),
+        };
         let (status, rest) = parse_response_status(rest)?;
         let (headers, rest) = parse_headers(rest)?;
 
@@ -30,7 +35,7 @@ impl<'b> Response<'b> {
 fn parse_response_status(buf: &[u8]) -> Result<(Status<'_>, &[u8]), HttpParsingError> {
     let code = parse_response_status_code(buf)?;
     // check SP
-    if buf.get(3).ok_or(MalformedStatusLine)? != &b' ' {
+    if buf.get(3).ok_or(UnexpectedEof)? != &b' ' {
         return Err(MalformedStatusLine);
     }
 
@@ -52,20 +57,20 @@ fn parse_response_status(buf: &[u8]) -> Result<(Status<'_>, &[u8]), HttpParsingE
         }
         i += 1;
     }
-    Err(MalformedStatusLine)
+    Err(UnexpectedEof) // no CRLF yet: the status line is incomplete
 }
 
 #[inline]
 fn parse_response_status_code(buf: &[u8]) -> Result<u16, HttpParsingError> {
-    let hundreds = match buf.first().ok_or(MalformedStatusLine)? {
+    let hundreds = match buf.first().ok_or(UnexpectedEof)? {
         x if (*x >= b'0' && *x <= b'9') => *x,
         _ => return Err(MalformedStatusLine),
     };
-    let tens = match buf.get(1).ok_or(MalformedStatusLine)? {
+    let tens = match buf.get(1).ok_or(UnexpectedEof)? {
         x if (*x >= b'0' && *x <= b'9') => *x,
         _ => return Err(MalformedStatusLine),
     };
-    let ones = match buf.get(2).ok_or(MalformedStatusLine)? {
+    let ones = match buf.get(2).ok_or(UnexpectedEof)? {
         x if (*x >= b'0' && *x <= b'9') => *x,
         _ => return Err(MalformedStatusLine),
     };
